@@ -1,0 +1,7 @@
+//go:build !verif
+// +build !verif
+
+package store
+
+// verifPoint is a no-op unless the package is built with -tags verif.
+func verifPoint(point string, args ...interface{}) {}
